@@ -309,6 +309,31 @@ PROPERTY_OF_FAILURE = {
 }
 
 
+def design_model(out, wd, thorough):
+    """A: MC_Tree (writes, flush, selector with trivial moves / compute_bounds / expand, cuts, GC, no reopen: the open
+    recovery finding is handled on traces) exhaustively at small scope, plus the witness state of the
+    expand_compaction defect as positive and negative control."""
+    inv = ["ReadLatest", "ScanOk", "Conserved", "NoDup", "GcSafe", "ReadAtAnyTs", "SelectableSafe"]
+    consts = {"K": 2, "MaxWrites": 4 if not thorough else 5, "NL": 3, "MaxFiles": 5 if not thorough else 6, "MaxInputs": 3, "MaxOuts": 2, "GcVersions": 1,
+              "MaxReopen": 0, "Emit": False, "Dev": set()}
+    r = run_tlc("MC_Tree", cfg_text(constants=consts, invariants=inv, properties=["ReadsAtAnyTsKept"], constraints=["Bounded"], view="View"), wd, "mctree",
+                workers=8, timeout=3000, heap="8g")
+    if not r.ok():
+        raise ToolError(f"TLC MC_Tree: violated={r.violated} error={r.error} ({r.out})")
+    out.add_tlc("MC_Tree_design_model", r, {k: v for k, v in consts.items() if k != "Dev"})
+    wc = {"K": 3, "MaxWrites": 7, "NL": 4, "MaxFiles": 9, "MaxInputs": 4, "MaxOuts": 2, "GcVersions": 2, "MaxReopen": 0, "Emit": False}
+    r = run_tlc("MC_Tree", cfg_text(init="WitnessInit", next_="MCNext", constants=dict(wc, Dev=set()), invariants=["ReadLatest", "Conserved", "NoDup", "ReadAtAnyTs", "SelectableSafe"],
+                                    constraints=["Bounded"]), wd, "mctree_w", workers=4, timeout=900)
+    if not r.ok():
+        raise ToolError(f"TLC MC_Tree witness: violated={r.violated} error={r.error} ({r.out})")
+    out.add_tlc("MC_Tree_expand_witness", r, wc)
+    rn = run_tlc("MC_Tree", cfg_text(init="WitnessInit", next_="MCNext", constants=dict(wc, Dev={"ExpandAddsUncoveredSst"}), invariants=["ReadLatest", "ReadAtAnyTs"],
+                                     constraints=["Bounded"]), wd, "mctree_wneg", workers=4, timeout=900)
+    if not rn.violated:
+        raise ToolError("negative control failed: expand_compaction as found should lose the latest read from the witness state")
+    out.extra["negative_controls"] = [f"ExpandAddsUncoveredSst (witness state) -> {rn.violated}"]
+
+
 def check_store(prop, replay=None):
     out = Outcome(prop)
     wd = vlib.workdir()
@@ -323,6 +348,8 @@ def check_store(prop, replay=None):
         docs = [gen_history(rng, i, "kvs", nops, prop) for i in range(n)]
         docs += [gen_history(rng, n + i, "tree", nops, prop) for i in range(n // 4)]
         docs += regression_histories()
+    if prop in ("C01", "C05") and not replay:
+        design_model(out, wd, vlib.tier() != "quick")
     failures = run_and_validate(out, wd, docs, "drv", devs, prop)
     for f in failures:
         path = replay or vlib.save_replay(prop, "store-history", {"doc": f["doc"], "matched": f["matched"], "guard": f.get("guard"),
